@@ -3,6 +3,7 @@
    every schedule; what each helper returns is tied to the operations it
    completed (its entries in the ghost log); RecvQueued / RecvQueuedFull never
    block, terminate, and alone on the channel return exactly the queued prefix. *)
+From Coq Require Import Permutation.
 From Typ Require Import Lib.Base Lib.Chan Chans.Helpers.
 
 Section Proofs.
@@ -670,4 +671,233 @@ Proof.
   - apply (conservation sched c dn (RecvQueued m) Hw).
 Qed.
 
+
+(* RecvQueuedFull: the caller's buf is always (values taken so far) ++ (untouched tail of the original) *)
+
+Lemma set_nth_app_here (pre : list V) x y rest :
+  set_nth (length pre) x (pre ++ y :: rest) = Ok (pre ++ x :: rest).
+Proof.
+  induction pre as [|q pre IH]; [reflexivity|].
+  cbn [app length set_nth]. rewrite IH. reflexivity.
+Qed.
+
+Lemma skipn_cons_S n : forall (l : list V) y r, skipn n l = y :: r -> skipn (S n) l = r.
+Proof.
+  induction n as [|n IH]; intros [|a l] y r E; try discriminate.
+  - cbn in E. injection E as _ <-. reflexivity.
+  - cbn [skipn] in E. apply IH in E. exact E.
+Qed.
+
+Lemma full_len (l buf0 : list V) : length l <= length buf0 ->
+  length (l ++ skipn (length l) buf0) = length buf0.
+Proof. intros H. rewrite app_length, skipn_length. lia. Qed.
+
+Lemma full_set (l buf0 : list V) x : length l < length buf0 ->
+  set_nth (length l) x (l ++ skipn (length l) buf0) = Ok ((l ++ [x]) ++ skipn (length (l ++ [x])) buf0).
+Proof.
+  intros H. destruct (skipn (length l) buf0) as [|y rest] eqn:E.
+  - pose proof (skipn_length (length l) buf0) as Hl. rewrite E in Hl. cbn in Hl. lia.
+  - rewrite set_nth_app_here. apply skipn_cons_S in E.
+    rewrite app_length. cbn [length]. rewrite Nat.add_1_r, E, <- app_assoc. reflexivity.
+Qed.
+
+Definition full_rel (s0 r0 buf0 : list V) (st : world V * pc V) : Prop :=
+  sent_by Helper (log (fst st)) = s0 /\
+  match snd st with
+  | PQueuedFull i bf => exists l, rcvd_by Helper (log (fst st)) = r0 ++ l /\
+      length l <= length buf0 /\ i = length l /\ bf = l ++ skipn (length l) buf0
+  | PRet (RFull n bf) => exists l, rcvd_by Helper (log (fst st)) = r0 ++ l /\
+      length l <= length buf0 /\ n = length l /\ bf = l ++ skipn (length l) buf0
+  | _ => False
+  end.
+
+Lemma full_rel_step s0 r0 buf0 st a : full_rel s0 r0 buf0 st -> full_rel s0 r0 buf0 (step zero st a).
+Proof.
+  intros [Hs Hm]. destruct st as [w p]. cbn [fst snd] in *. destruct a as [e|c]; cbn [step fst snd].
+  - destruct (env_step_H e w) as (Es & Er & _). split; cbn [fst snd]; [congruence|].
+    destruct p as [| | | | |i bf|[| | |n bf]|]; try contradiction; rewrite Er; exact Hm.
+  - destruct (hstep zero c w p) as [st'|] eqn:E; [|split; assumption].
+    destruct p as [| | | | |i bf|[| | |n bf]|]; try contradiction.
+    + destruct Hm as (l & Hr & Hl & -> & ->). cbn [hstep] in E. rewrite full_len in E by exact Hl.
+      destruct (Nat.ltb_spec (length l) (length buf0)) as [Hlt|Hge];
+        [|injection E as <-; split; cbn [fst snd]; eauto].
+      destruct (try_recv zero Helper w) as [[[w' x] ok]|] eqn:E';
+        [|injection E as <-; split; cbn [fst snd]; eauto].
+      apply try_recv_H in E' as (Es & _ & [[-> Er]|(-> & -> & -> & _)]); cbn [negb] in E.
+      * rewrite full_set in E by exact Hlt. injection E as <-.
+        split; cbn [fst snd]; [congruence|]. exists (l ++ [x]). repeat split.
+        -- rewrite Er, Hr, app_assoc. reflexivity.
+        -- rewrite app_length. cbn [length]. lia.
+        -- rewrite app_length. cbn [length]. reflexivity.
+      * injection E as <-. split; cbn [fst snd]; eauto.
+    + cbn [hstep] in E. discriminate.
+Qed.
+
+Lemma full_rel_run s0 r0 buf0 sched : forall st, full_rel s0 r0 buf0 st -> full_rel s0 r0 buf0 (run zero sched st).
+Proof.
+  induction sched as [|a sched IH]; intros st H; [exact H|].
+  cbn [run fold_left]. apply IH. apply full_rel_step; assumption.
+Qed.
+
+(* After any schedule: RecvQueuedFull has sent nothing; it took the values [l]
+   from the channel, in order, at most len(buf) of them; buf holds l followed
+   by the untouched rest of the original buf; it is in its loop at index len l
+   or has returned len l; after len(buf)+1 of its own steps it has returned;
+   it never panics. *)
+Definition full_outcome (buf0 : list V) (w : world V) (sched : list (action V)) (st' : world V * pc V) : Prop :=
+  let w' := fst st' in
+  sent_by Helper (log w') = sent_by Helper (log w) /\
+  exists l, rcvd_by Helper (log w') = rcvd_by Helper (log w) ++ l /\
+    length l <= length buf0 /\
+    (snd st' = PQueuedFull (length l) (l ++ skipn (length l) buf0) \/
+     snd st' = PRet (RFull (length l) (l ++ skipn (length l) buf0))) /\
+    (length buf0 + 1 <= count_help sched -> snd st' = PRet (RFull (length l) (l ++ skipn (length l) buf0))).
+
+Theorem recv_queued_full_any_schedule sched w buf0 :
+  full_outcome buf0 w sched (run zero sched (w, RecvQueuedFull buf0)).
+Proof.
+  assert (H0 : full_rel (sent_by Helper (log w)) (rcvd_by Helper (log w)) buf0 (w, RecvQueuedFull buf0)).
+  { split; cbn [fst snd RecvQueuedFull]; [reflexivity|]. exists []. rewrite app_nil_r. cbn. repeat split; lia. }
+  apply (full_rel_run _ _ _ sched) in H0.
+  pose proof (run_fuel sched (w, RecvQueuedFull buf0)) as Hf. cbn [snd RecvQueuedFull fuel_left] in Hf.
+  destruct (run zero sched (w, RecvQueuedFull buf0)) as [w' p']. destruct H0 as [Hs Hm]. cbn [fst snd] in *.
+  split; [exact Hs|]. cbn [fst snd].
+  destruct p' as [| | | | |i bf|[| | |n bf]|]; try contradiction.
+  - destruct Hm as (l & Hr & Hl & -> & ->). exists l. repeat split; auto.
+    intros Hc. cbn [fuel_left] in Hf. lia.
+  - destruct Hm as (l & Hr & Hl & -> & ->). exists l. repeat split; auto.
+Qed.
+
+(* ---------- alone on the channel: the exact result ---------- *)
+
+Lemma run_help_returned choices w p : returned p = true -> run zero (map AHelp choices) (w, p) = (w, p).
+Proof.
+  intros H. induction choices as [|c cs IH]; [reflexivity|].
+  cbn [map run fold_left step fst snd]. destruct p; try discriminate; cbn [hstep]; exact IH.
+Qed.
+
+Lemma queued_alone_gen b : forall cp cl rq dn lg acc m choices k,
+  k = Z.to_nat m - length acc -> k + 1 <= length choices ->
+  run zero (map AHelp choices) (World (Chan b cp cl [] rq) dn lg, PQueued acc m)
+  = (World (Chan (skipn k b) cp cl [] rq) dn (lg ++ map (Rcvd Helper) (firstn k b)),
+     PRet (RList (acc ++ firstn k b))).
+Proof.
+  induction b as [|x b IH]; intros cp cl rq dn lg acc m [|c cs] k Hk Hc; cbn [length] in Hc; try lia.
+  - cbn [map run fold_left step fst snd hstep]. fold (run zero (map AHelp cs)).
+    rewrite skipn_nil, firstn_nil. cbn [map]. rewrite !app_nil_r.
+    destruct (Z.of_nat (length acc) <? m)%Z; [|apply run_help_returned; reflexivity].
+    unfold try_recv; cbn [ch buf sendq closed]. destruct cl; cbn [negb]; apply run_help_returned; reflexivity.
+  - cbn [map run fold_left step fst snd hstep]. fold (run zero (map AHelp cs)).
+    destruct (Z.ltb_spec (Z.of_nat (length acc)) m) as [Hlt|Hge].
+    + unfold try_recv, upd; cbn [ch buf sendq closed negb log done cap recvq];
+      change (fold_left (step zero)) with (run zero).
+      assert (Hk' : k = S (Z.to_nat m - length (acc ++ [x]))) by (rewrite app_length; cbn [length]; lia).
+      rewrite (IH cp cl rq dn (lg ++ [Rcvd Helper x]) (acc ++ [x]) m cs _ eq_refl) by lia.
+      rewrite Hk'. cbn [skipn firstn map]. rewrite <- !app_assoc. reflexivity.
+    + assert (k = 0) as -> by lia. cbn [skipn firstn map]. rewrite !app_nil_r.
+      apply run_help_returned; reflexivity.
+Qed.
+
+(* RecvQueued with no other goroutine on the channel: for every capacity,
+   contents, open/closed state and limit, any limit+1 of its own steps (each
+   enabled) end with exactly the queued prefix, the rest left in the channel,
+   one receive logged per value, nothing else changed. *)
+Theorem recv_queued_alone b cp cl rq dn lg m choices :
+  Z.to_nat m + 1 <= length choices ->
+  run zero (map AHelp choices) (World (Chan b cp cl [] rq) dn lg, RecvQueued m)
+  = (World (Chan (skipn (Z.to_nat m) b) cp cl [] rq) dn (lg ++ map (Rcvd Helper) (firstn (Z.to_nat m) b)),
+     PRet (RList (firstn (Z.to_nat m) b))).
+Proof.
+  intros H. unfold RecvQueued.
+  rewrite (queued_alone_gen b cp cl rq dn lg [] m choices (Z.to_nat m)); cbn [length]; try lia. reflexivity.
+Qed.
+
+Lemma full_alone_gen b : forall cp cl rq dn lg l buf0 choices k,
+  k = length buf0 - length l -> length l <= length buf0 -> k + 1 <= length choices ->
+  run zero (map AHelp choices)
+      (World (Chan b cp cl [] rq) dn lg, PQueuedFull (length l) (l ++ skipn (length l) buf0))
+  = (World (Chan (skipn k b) cp cl [] rq) dn (lg ++ map (Rcvd Helper) (firstn k b)),
+     PRet (RFull (length (l ++ firstn k b)) ((l ++ firstn k b) ++ skipn (length (l ++ firstn k b)) buf0))).
+Proof.
+  induction b as [|x b IH]; intros cp cl rq dn lg l buf0 [|c cs] k Hk Hl Hc; cbn [length] in Hc; try lia.
+  - cbn [map run fold_left step fst snd hstep]. fold (run zero (map AHelp cs)).
+    rewrite full_len by exact Hl.
+    rewrite skipn_nil, firstn_nil. cbn [map]. rewrite !app_nil_r.
+    destruct (length l <? length buf0); [|apply run_help_returned; reflexivity].
+    unfold try_recv; cbn [ch buf sendq closed]. destruct cl; cbn [negb]; apply run_help_returned; reflexivity.
+  - cbn [map run fold_left step fst snd hstep]. fold (run zero (map AHelp cs)).
+    rewrite full_len by exact Hl.
+    destruct (Nat.ltb_spec (length l) (length buf0)) as [Hlt|Hge].
+    + unfold try_recv, upd; cbn [ch buf sendq closed negb log done cap recvq];
+      change (fold_left (step zero)) with (run zero).
+      rewrite full_set by exact Hlt.
+      replace (length l + 1) with (length (l ++ [x])) by (rewrite app_length; reflexivity).
+      assert (Hk' : k = S (length buf0 - length (l ++ [x]))) by (rewrite app_length; cbn [length]; lia).
+      rewrite (IH cp cl rq dn (lg ++ [Rcvd Helper x]) (l ++ [x]) buf0 cs _ eq_refl);
+        try (rewrite app_length; cbn [length]; lia).
+      rewrite Hk'. cbn [skipn firstn map]. rewrite <- !app_assoc. reflexivity.
+    + assert (k = 0) as -> by lia. cbn [skipn firstn map]. rewrite !app_nil_r.
+      apply run_help_returned; reflexivity.
+Qed.
+
+(* RecvQueuedFull alone on the channel: n = min(len buf, queued) values are
+   taken, written to buf[0..n), the rest of buf and of the channel untouched. *)
+Theorem recv_queued_full_alone b cp cl rq dn lg buf0 choices :
+  length buf0 + 1 <= length choices ->
+  let taken := firstn (length buf0) b in
+  run zero (map AHelp choices) (World (Chan b cp cl [] rq) dn lg, RecvQueuedFull buf0)
+  = (World (Chan (skipn (length buf0) b) cp cl [] rq) dn (lg ++ map (Rcvd Helper) taken),
+     PRet (RFull (length taken) (taken ++ skipn (length taken) buf0))).
+Proof.
+  intros H taken. unfold RecvQueuedFull.
+  pose proof (full_alone_gen b cp cl rq dn lg [] buf0 choices (length buf0)) as G.
+  cbn [length app skipn] in G. rewrite G; try lia. reflexivity.
+Qed.
+
+
+(* ---------- the log splits into the helper's and the environment's operations ---------- *)
+
+Lemma sent_by_subseq a (l : list (event V)) : subseq (sent_by a l) (sent_vals l).
+Proof.
+  induction l as [|[a' v|a' v] l IH]; cbn; [constructor| |exact IH].
+  destruct (agent_eqb a a'); cbn; constructor; exact IH.
+Qed.
+
+Lemma log_cons (e : event V) (l : list (event V)) a :
+  sent_vals (e :: l) = sent_vals [e] ++ sent_vals l /\ rcvd_vals (e :: l) = rcvd_vals [e] ++ rcvd_vals l /\
+  sent_by a (e :: l) = sent_by a [e] ++ sent_by a l /\ rcvd_by a (e :: l) = rcvd_by a [e] ++ rcvd_by a l.
+Proof.
+  change (e :: l) with ([e] ++ l). rewrite sent_vals_app, rcvd_vals_app, sent_by_app, rcvd_by_app. auto.
+Qed.
+
+Theorem log_parts (l : list (event V)) :
+  length (sent_vals l) = length (sent_by Helper l) + length (sent_by Env l) /\
+  length (rcvd_vals l) = length (rcvd_by Helper l) + length (rcvd_by Env l) /\
+  subseq (sent_by Helper l) (sent_vals l) /\ subseq (rcvd_by Helper l) (rcvd_vals l).
+Proof.
+  repeat split; try apply sent_by_subseq; try apply rcvd_by_subseq.
+  - induction l as [|e l IH]; [reflexivity|].
+    destruct (log_cons e l Helper) as (-> & _ & -> & _). destruct (log_cons e l Env) as (_ & _ & -> & _).
+    rewrite !app_length, IH. destruct e as [[|] v|[|] v]; cbn; lia.
+  - induction l as [|e l IH]; [reflexivity|].
+    destruct (log_cons e l Helper) as (_ & -> & _ & ->). destruct (log_cons e l Env) as (_ & _ & _ & ->).
+    rewrite !app_length, IH. destruct e as [[|] v|[|] v]; cbn; lia.
+Qed.
+
+(* multiset form of conservation, as in the property text *)
+Theorem conservation_multiset sched c dn p :
+  wf c ->
+  let w' := fst (run zero sched (World c dn [], p)) in
+  Permutation (sent_vals (log w') ++ buf c) (rcvd_vals (log w') ++ buf (ch w')).
+Proof.
+  intros Hw w'. destruct (conservation sched c dn p Hw) as [_ H]. fold w' in H.
+  rewrite <- H. apply Permutation_app_comm.
+Qed.
+
 End Proofs.
+
+(* ---------- concrete instances (non-vacuity) ---------- *)
+
+Lemma wf_example : wf (Chan [1; 2]%Z 2 false [3]%Z 0) /\ wf (Chan ([] : list Z) 0 false [] 2) /\
+                   wf (Chan [5]%Z 3 true [] 0).
+Proof. unfold wf; cbn. repeat split; intros; try discriminate; try lia; try congruence; auto. Qed.
